@@ -1,15 +1,15 @@
 #!/bin/bash
-# Mutation self-test of the tokeniser tie (tools/py2lean_tok.py + lean/SCoda/Props/TokTie.lean).
+# Mutation self-test of the tokeniser tie (tools/py2lean_tok.py + lean/SCoda/Props/TokTie.lean, TokTie2.lean, TokTie3.lean).
 #
 # For each small semantic edit of a scratch COPY of /repo/scoda: regenerate lean/SCoda/Gen/*.lean from the copy
 # (SCODA_REPO=<copy> tools/gen_lean.py), check that Gen/TokFns.lean changed, and check that
-# `lake build SCoda.Props.TokTie` FAILS (or that the generation itself fails loudly).  On the unedited source it must PASS
+# `lake build SCoda.Props.TokTie3` (which imports SCoda.Props.TokTie2 and SCoda.Props.TokTie) FAILS (or that the generation itself fails loudly).  On the unedited source it must PASS
 # (checked first and last; the last run also restores the generated files).  /repo and /verif are never written.
 #
 #   usage: [ORIG=<source tree>] [SCRATCH=<dir>] tools/test_py2lean_tok.sh            (works on the copy of the framework it lives in)
 set -u
 HERE="$(cd "$(dirname "$0")/.." && pwd)"
-SCRATCH="${SCRATCH:-/root/work/t3tok/mut_scratch}"
+SCRATCH="${SCRATCH:-/tmp/test_py2lean_tok}"
 PY=/venv/bin/python
 ORIG="${ORIG:-/repo}"          # the unedited source tree (ORIG=<tree with the repair of D31> for the mutants m13-m15)
 F=tokenisation/notelike_tokenisation.py
@@ -23,14 +23,14 @@ r = json.load(open(sys.argv[1]))
 sys.exit(0 if any(e["file"] == "TokFns.lean" for e in r["errors"]) else 1)
 PYEOF
   then echo "FAIL(gen)"; return; fi
-  if ( cd "$HERE/lean" && lake build SCoda.Props.TokTie > "$SCRATCH/last.log" 2>&1 ); then echo "PASS"; else echo "FAIL(build)"; fi
+  if ( cd "$HERE/lean" && lake build SCoda.Props.TokTie3 > "$SCRATCH/last.log" 2>&1 ); then echo "PASS"; else echo "FAIL(build)"; fi
 }
 
-mutant() {   # $1 = name, $2 = python regex, $3 = replacement, $4 = description
-  local name="$1" pat="$2" rep="$3" desc="$4"
+mutant() {   # $1 = name, $2 = python regex, $3 = replacement, $4 = description, [$5 = source file under scoda/, $6 = generated file]
+  local name="$1" pat="$2" rep="$3" desc="$4" src="${5:-$F}" gen="${6:-TokFns.lean}"
   local root="$SCRATCH/$name"
   rm -rf "$root"; mkdir -p "$root"; cp -r "$ORIG/scoda" "$root/scoda"
-  if ! $PY - "$root/scoda/$F" "$pat" "$rep" <<'PYEOF'
+  if ! $PY - "$root/scoda/$src" "$pat" "$rep" <<'PYEOF'
 import re, sys
 path, pat, rep = sys.argv[1:4]
 src = open(path).read()
@@ -40,10 +40,10 @@ if n != 1 or new == src:
 open(path, "w").write(new)
 PYEOF
   then echo "$name: the edit did not apply (source changed?)"; fail=1; return; fi
-  cp "$HERE/lean/SCoda/Gen/TokFns.lean" "$SCRATCH/TokFns.before"
+  cp "$HERE/lean/SCoda/Gen/$gen" "$SCRATCH/TokFns.before"
   local res; res=$(regen_and_build "$root")
   local changed="generated text changed"
-  cmp -s "$SCRATCH/TokFns.before" "$HERE/lean/SCoda/Gen/TokFns.lean" && changed="GENERATED TEXT UNCHANGED"
+  cmp -s "$SCRATCH/TokFns.before" "$HERE/lean/SCoda/Gen/$gen" && changed="GENERATED TEXT UNCHANGED"
   local why=""
   if [ "$res" = "FAIL(build)" ]; then why=$(grep -m1 -o 'error: [^ ]*\.lean:[0-9]*' "$SCRATCH/last.log" | sed 's/error: //'); fi
   if [ "$res" = "FAIL(gen)" ]; then why=$($PY -c "import json;print([e['error'] for e in json.load(open('$SCRATCH/gen.json'))['errors'] if e['file']=='TokFns.lean'][0][:160])"); fi
@@ -90,6 +90,19 @@ mutant m14_revert_d31_values 'self\.note_values = sorted\(set\(self\.note_values
   "__init__: note_values sorted but not de-duplicated (sorted(x) instead of sorted(set(x)))"
 mutant m15_set_unordered 'self\.step_sizes = sorted\(set\(self\.step_sizes\)\)' 'self.step_sizes = list(set(self.step_sizes))' \
   "__init__: list(set(x)) — a set has no order (outside the subset: generation must fail loudly)"
+mutant m16_default_flag 'insert_bar_token: bool = True' 'insert_bar_token: bool = False' \
+  "tokenise: the default of insert_bar_token becomes False (the tie is stated at the defaults of the signature: TokTie2.tokenise_defaults)"
+mutant m17_standard_length 'MessageType\.TIME_SIGNATURE, MessageType\.INTERNAL\]\)' 'MessageType.TIME_SIGNATURE, MessageType.INTERNAL], standard_length=self.ppqn)' \
+  "tokenise: standard_length=self.ppqn passed to get_interleaved_message_pairings (the link fixes the default PPQN: generation must fail loudly)"
+mutant m18_not_implemented 'if not flag_running_time_signature:\n(\s*)raise NotImplementedError\(\)' 'if not flag_running_time_signature:\n\1raise TokenisationException("x")' \
+  "tokenise: flag_running_time_signature=False raises TokenisationException (TokTie2.tokenise_not_running)"
+mutant m19_bins_arg 'get_velocity_bins\(velocity_bins=velocity_bins\)' 'get_velocity_bins(velocity_bins=velocity_bins + 1)' \
+  "__init__: one velocity bin more than asked for (TokTie.tokInit_eq' / TokTie2.tokInit_eq_any)"
+mutant m20_util_bins 'bin_size / 2' 'bin_size / 3' \
+  "util.get_velocity_bins: bins offset by a third of the bin size (the link is the TRANSLATED function: UtilTie.getVelocityBins_int in the import closure)" \
+  misc/util.py UtilFns.lean
+mutant m21_bar_flag_inverted 'if insert_bar_token:' 'if not insert_bar_token:' \
+  "_apply_rest: the bar token is emitted when insert_bar_token is False (TokTieL.tokeniseApplyRest_eq, TokTieBarL.tokeniseApplyRest_eqB)"
 
 echo "== original source again (restores the generated files)"
 r=$(regen_and_build "$ORIG")
